@@ -169,6 +169,11 @@ example : reduceThresholds [("monotonicity_threshold", 4/5), ("min_n_cycles", 3)
 `threshold_kwargs`) - the `Api.cf o.st x` of the object machine - and `plot` hands the stored table, signal, rate and thresholds to the summary plot. -/
 theorem C14_routing : ∀ r ∈ Routing.object, Routing.holds Slots.routes r = true := by decide +kernel
 
+/-- the group object's wiring, read off the source on every run: one option dictionary built from the stored settings, the stored sample switch as the
+ARGUMENT `return_samples` (the group functions discard a `return_samples` key inside the dictionary), every model constructed with the group's settings, the
+reduction handed to every model in the 2-D and in the 3-D branch alike. -/
+theorem C14_group_routing : ∀ r ∈ Routing.groupObject, Routing.holdsAll Slots.routes r = true := by decide +kernel
+
 open Obj in
 /-- HISTORIES MEET THE TABLE: the object machine instantiated with the MODELLED pipelines (`pipelineCycles` for the consistency method, `pipelineAmp` for the amplitude
 method: extrema, midpoints, shape features, burst features resp. burst fractions, labels). Whatever sequence of fits, edge recomputations, loads, edits and plots preceded
